@@ -3,6 +3,8 @@ package main
 import (
 	"fmt"
 	"go/token"
+	"sort"
+	"strings"
 
 	"golang.org/x/tools/go/ssa"
 )
@@ -447,4 +449,278 @@ func checkOrderingVisitsAll(p *Prog, r *Result, rule string) {
 	if n == 0 {
 		r.Report(rule, "-", "the ordering test reads the list from its first to its last entry", Undecided, "no loop over the sorted list was found in the reach of the index-level control", "", nil, false)
 	}
+}
+
+// checkListingKeepsAllExtensions: the directory listing that the control and Repair rely on keeps an entry whatever
+// extension the namer can have given it: a test of the extension part that guards the registration of an entry is
+// evaluated on the extensions the namer produces, the empty one included.
+func checkListingKeepsAllExtensions(p *Prog, r *Result, rule string) {
+	lst := p.FuncByName("uuidsFromDir")
+	split := p.FuncByName("uuidExt")
+	if lst == nil || split == nil {
+		r.Report(rule, "uuidsFromDir", "listing", Undecided, "directory listing or name splitter not found", "", nil, false)
+		return
+	}
+	suffix := ""
+	if gv, ok := p.SPkg.Members["compressedExtension"].(*ssa.Global); ok {
+		suffix = globalStringInit(p, gv)
+	}
+	var samples []string
+	for _, e := range []string{"", ".json", ".obj", ".doc.json"} {
+		samples = append(samples, e, e+suffix)
+	}
+	// values holding the extension part
+	isExt := func(v ssa.Value) bool {
+		ex, ok := v.(*ssa.Extract)
+		if !ok || ex.Index != 1 {
+			return false
+		}
+		call, ok := ex.Tuple.(*ssa.Call)
+		return ok && call.Call.StaticCallee() == split
+	}
+	evalCond := func(cond ssa.Value, ext string) (bool, bool) {
+		neg := false
+		for {
+			if u, ok := cond.(*ssa.UnOp); ok && u.Op == token.NOT {
+				cond, neg = u.X, !neg
+				continue
+			}
+			break
+		}
+		res, ok := false, false
+		switch c := cond.(type) {
+		case *ssa.BinOp:
+			if isExt(c.X) || isExt(c.Y) {
+				other := c.Y
+				if isExt(c.Y) {
+					other = c.X
+				}
+				if s, isS := constString(other); isS && (c.Op == token.EQL || c.Op == token.NEQ) {
+					res, ok = (ext == s) == (c.Op == token.EQL), true
+				}
+			} else if call, isC := c.X.(*ssa.Call); isC {
+				if bi, isB := call.Call.Value.(*ssa.Builtin); isB && bi.Name() == "len" && isExt(call.Call.Args[0]) {
+					if k, isK := constInt(c.Y); isK {
+						n := int64(len(ext))
+						ok = true
+						switch c.Op {
+						case token.EQL:
+							res = n == k
+						case token.NEQ:
+							res = n != k
+						case token.LSS:
+							res = n < k
+						case token.LEQ:
+							res = n <= k
+						case token.GTR:
+							res = n > k
+						case token.GEQ:
+							res = n >= k
+						default:
+							ok = false
+						}
+					}
+				}
+			}
+		case *ssa.Call:
+			g := c.Call.StaticCallee()
+			if g != nil && g.Object() != nil && g.Object().Pkg() != nil && g.Object().Pkg().Path() == "strings" && len(c.Call.Args) == 2 && isExt(c.Call.Args[0]) {
+				if s, isS := constString(c.Call.Args[1]); isS {
+					switch g.Name() {
+					case "HasPrefix":
+						res, ok = strings.HasPrefix(ext, s), true
+					case "HasSuffix":
+						res, ok = strings.HasSuffix(ext, s), true
+					case "Contains":
+						res, ok = strings.Contains(ext, s), true
+					}
+				}
+			}
+		}
+		return res != neg, ok
+	}
+	n := 0
+	for _, lp := range naturalLoops(lst) {
+		inLoop := map[*ssa.BasicBlock]bool{}
+		for _, b := range lp.blocks {
+			inLoop[b] = true
+		}
+		for _, b := range lp.blocks {
+			for _, in := range b.Instrs {
+				mu, ok := in.(*ssa.MapUpdate)
+				if !ok {
+					continue
+				}
+				n++
+				bad, found := "", false
+				tests := 0
+				for d := b.Idom(); d != nil && inLoop[d]; d = d.Idom() {
+					ifi, ok := d.Instrs[len(d.Instrs)-1].(*ssa.If)
+					if !ok {
+						continue
+					}
+					want := true
+					// the successor through which the registration is reached (a back edge to the loop header, which
+					// dominates the whole body, is not one)
+					leads := func(s *ssa.BasicBlock) bool {
+						return s != lp.header && (s == b || (s.Dominates(b) && d.Dominates(s)))
+					}
+					switch {
+					case leads(d.Succs[0]) && !leads(d.Succs[1]):
+					case leads(d.Succs[1]) && !leads(d.Succs[0]):
+						want = false
+					default:
+						continue
+					}
+					for _, ext := range samples {
+						got, ok := evalCond(ifi.Cond, ext)
+						if !ok {
+							break
+						}
+						tests++
+						if got != want && !found {
+							bad, found = ext, true
+						}
+					}
+				}
+				construct := "an entry is registered whatever extension the namer gave it"
+				if found || tests > 0 {
+					if found {
+						r.Report(rule, FuncName(lst), construct, Violated, fmt.Sprintf("the directory listing skips the entries whose extension part is %q, which the namer produces (a schema whose extension is empty stores its objects as bare <uuid> files): the control reports a healthy collection as corrupted and Repair drops every object of it from the index", bad), p.Pos(mu.Pos()), nil, true)
+					} else {
+						r.Report(rule, FuncName(lst), construct, Discharged, "", p.Pos(mu.Pos()), nil, true)
+					}
+				} else {
+					r.Report(rule, FuncName(lst), construct, Discharged, "no test of the extension part guards the registration", p.Pos(mu.Pos()), nil, true)
+				}
+			}
+		}
+	}
+	if n == 0 {
+		r.Report(rule, FuncName(lst), "an entry is registered whatever extension the namer gave it", Discharged, "the listing has no loop that registers entries in a map: not decided", p.Pos(lst.Pos()), nil, false)
+	}
+}
+
+// checkCloneFreshDestination: the destination handed to a recursive clone call inside a loop is made in that
+// iteration: the arms that return early (nil pointer / slice / map, empty interface) leave the destination as it is,
+// and the pointer arm allocates only when the destination is nil, so a destination kept from the previous element
+// makes entries share memory or inherit the previous entry's value.
+func checkCloneFreshDestination(p *Prog, r *Result, rule string) {
+	cv := p.FuncByName("cloneValue")
+	if cv == nil {
+		r.Report(rule, "cloneValue", "function", Undecided, "deep clone not found", "", nil, false)
+		return
+	}
+	family := map[*ssa.Function]bool{}
+	for _, f := range calleesWithin(p, cv, 2) {
+		if inSod(p, f) {
+			family[f] = true
+		}
+	}
+	family[cv] = true
+	isReflect := func(g *ssa.Function, names ...string) bool {
+		if g == nil || g.Object() == nil || g.Object().Pkg() == nil || g.Object().Pkg().Path() != "reflect" {
+			return false
+		}
+		if len(names) == 0 {
+			return true
+		}
+		for _, n := range names {
+			if g.Name() == n {
+				return true
+			}
+		}
+		return false
+	}
+	n := 0
+	var fns []*ssa.Function
+	for f := range family {
+		fns = append(fns, f)
+	}
+	sort.Slice(fns, func(i, j int) bool { return FuncName(fns[i]) < FuncName(fns[j]) })
+	for _, f := range fns {
+		for _, lp := range naturalLoops(f) {
+			inLoop := map[*ssa.BasicBlock]bool{}
+			for _, b := range lp.blocks {
+				inLoop[b] = true
+			}
+			for _, b := range lp.blocks {
+				for _, in := range b.Instrs {
+					call, ok := in.(*ssa.Call)
+					if !ok || !family[call.Call.StaticCallee()] {
+						continue
+					}
+					for _, arg := range call.Call.Args {
+						v := arg
+						var origin *ssa.Call
+						for steps := 0; steps < 8 && v != nil; steps++ {
+							switch u := v.(type) {
+							case *ssa.MakeInterface:
+								v = u.X
+							case *ssa.ChangeInterface:
+								v = u.X
+							case *ssa.Call:
+								g := u.Call.StaticCallee()
+								switch {
+								case isReflect(g, "New"):
+									origin, v = u, nil
+								case isReflect(g, "Addr", "Elem", "Interface", "Convert") && g.Signature.Recv() != nil && len(u.Call.Args) > 0:
+									// the same storage seen another way; Index / Field / MapIndex select a part of their
+									// own per element and end the walk
+									v = u.Call.Args[0]
+								default:
+									v = nil
+								}
+							default:
+								v = nil
+							}
+						}
+						if origin == nil {
+							continue
+						}
+						n++
+						construct := "the destination of an element's clone is made in the same iteration"
+						if inLoop[origin.Block()] {
+							r.Report(rule, FuncName(f), construct, Discharged, "", p.Pos(call.Pos()), nil, true)
+						} else {
+							r.Report(rule, FuncName(f), construct, Violated, "the value the elements are cloned into is made once, before the loop, and reused for every element: the clone leaves its destination untouched for a nil pointer / slice / map or an empty interface and reuses a non-nil destination pointer, so an element inherits the previous element's clone and elements of pointer type all point to one structure; cached reads then differ from what was stored and share memory", p.Pos(call.Pos()), nil, true)
+						}
+					}
+				}
+			}
+		}
+	}
+	if n == 0 {
+		r.Report(rule, FuncName(cv), "the destination of an element's clone is made in the same iteration", Discharged, "no loop of the clone hands a reflect.New destination to a recursive call: not decided", p.Pos(cv.Pos()), nil, false)
+	}
+}
+
+// checkFilesFromAcceptedContent: an API entry that does not accept objects (it cannot report a uniqueness error)
+// never encodes the caller's object for an object file: what such a call writes is what the stores hold.
+func checkFilesFromAcceptedContent(p *Prog, c *Closures, r *Result, rule string) {
+	var roots []*ssa.Function
+	for _, f := range apiRoots(p) {
+		cl := c.Of(f)
+		if cl.Has(EFsWObj) && !cl.Has(EErrUnique) {
+			roots = append(roots, f)
+		}
+	}
+	if len(roots) == 0 {
+		r.Report(rule, "-", "entries that write object files without accepting", Undecided, "none found (Flush*, Close, Create, Repair, the flusher were expected)", "", nil, false)
+		return
+	}
+	vals := []Valuation{{Cache: triYes, Async: triYes}, {Cache: triNo, Async: triNo}}
+	exploreAll(p, c, jobsFor(roots, vals), EffSet{}, r, func(j exploreJob) Listener {
+		return &effListener{p: p, r: r, root: j.root, val: j.val, onEvent: func(l *effListener, x *Explorer, st *State, ev *Event) {
+			if ev.Kind != EvEffect || ev.Eff != EJsonEncObj {
+				return
+			}
+			fn := ownerName(p, l.root) + "." + l.root.Name()
+			if ev.Tags&TParamObj != 0 {
+				l.bad(rule, fn, "object files are encoded from stored content", "a call that accepts nothing encodes its caller's object for an object file: the file gets values that were never validated or indexed (a caller that edited its value after the insert, or never inserted it), so after reopening reads and searches disagree, a unique value can be on disk twice and a file without index entry makes the collection corrupted", l.p.Pos(ev.Instr.Pos()), x, st, ev.Instr)
+			} else {
+				l.ok(rule, fn, "object files are encoded from stored content", l.p.Pos(ev.Instr.Pos()))
+			}
+		}}
+	}, nil)
 }
